@@ -63,6 +63,9 @@ type Obligation struct {
 }
 
 type Exec struct {
+	offeredForms    [][2]string // (formula with offered witnesses, plain formula) since the last check/assume
+	topEntryAlloc   Term        // allocation map at entry of the function under verification
+	curPos          token.Pos   // position of the instruction being executed
 	nSkolem         int
 	skolems         []skolemFn
 	w               *World
@@ -132,6 +135,9 @@ type Frame struct {
 	pkg        *types.Package
 	debugNames map[string]ssa.Value
 	debugAll   map[string][]ssa.Value
+	// results of the calls executed so far, by callee method/function name
+	// (contract builtin callresult(name, k))
+	callVals map[string][]*Val
 }
 
 type retPoint struct {
@@ -166,11 +172,28 @@ func (x *Exec) check(st *State, kind, name string, goal Term, props []string, de
 		return
 	}
 	x.obligation(st, kind, name, goal, props, desc, where)
-	x.sc.Assume(Implies(st.reach, goal))
+	x.sc.Assume(Implies(st.reach, x.plain(goal)))
 }
 
 func (x *Exec) assume(st *State, t Term) {
-	x.sc.Assume(Implies(st.reach, t))
+	x.sc.Assume(Implies(st.reach, x.plain(t)))
+}
+
+// plain strips the offered witness disjuncts again (an equivalent formula):
+// they help to prove an existential, as an assumption they only add case splits.
+func (x *Exec) plain(t Term) Term {
+	if len(x.offeredForms) == 0 {
+		return t
+	}
+	// longest first: nested existentials
+	sort.Slice(x.offeredForms, func(i, j int) bool { return len(x.offeredForms[i][0]) > len(x.offeredForms[j][0]) })
+	for _, p := range x.offeredForms {
+		if strings.Contains(t.S, p[0]) {
+			t.S = strings.ReplaceAll(t.S, p[0], p[1])
+		}
+	}
+	x.offeredForms = nil
+	return t
 }
 
 // ---------------------------------------------------------------------------
@@ -637,6 +660,19 @@ func (x *Exec) loopClauses(fr *Frame, li *loopInfo, kind string) []*Clause {
 // name) and cells (allocs) by their comment.
 func (x *Exec) loopEnv(fr *Frame, li *loopInfo, st *State, override map[*ssa.Phi]*Val) *CEnv {
 	env := x.contractEnv(fr, st)
+	// a parameter whose address is taken lives in a cell: inside a loop its name
+	// means the current value (like every other variable); old(name) stays the
+	// entry value
+	for name, v := range fr.names {
+		if v.Loc == nil {
+			continue
+		}
+		if _, isParam := env.oldVars[name]; isParam {
+			if cur := env.vars[name]; cur != nil && !cur.Lazy {
+				env.vars[name] = &CV{T: x.load(st, v.Loc), Ty: v.Loc.T, Addr: v.Loc, Lazy: true}
+			}
+		}
+	}
 	// source variables merged before the loop: nearest dominating phi wins
 	var doms []*ssa.BasicBlock
 	for b := li.head.Idom(); b != nil; b = b.Idom() {
